@@ -390,8 +390,10 @@ def outcome_teq(a, b):
 class Built(object):
     """A program bound to a recorder (or None for the undecorated twin), a world and a journal."""
 
-    def __init__(self, prog, recorder, world, journal=None, faults=None, cls_name=None, extractor_behaviour=None):
+    def __init__(self, prog, recorder, world, journal=None, faults=None, cls_name=None, extractor_behaviour=None,
+                 thread_factory=None):
         self.prog = prog
+        self.thread_factory = thread_factory or (lambda target, args, name: threading.Thread(target=target, args=args, name=name))
         self.recorder = recorder
         self.world = world
         self.journal = journal or Journal()
@@ -720,7 +722,7 @@ class Built(object):
         if op == 'threads':
             ths = []
             for i, b in enumerate(s['bodies']):
-                th = threading.Thread(target=self._thread_main, args=('w%d' % i, b))
+                th = self.thread_factory(self._thread_main, ('w%d' % i, b), 'w%d' % i)
                 ths.append(th)
             for th in ths:
                 th.start()
